@@ -501,6 +501,11 @@ def gen_c02_decls(rng, tier):
         return [bl[i] for i in perm], trail
     family("String", str_blocks, [(p, bool(i % 2), bool((i // 2) % 2)) for i, p in enumerate(perms[::2])])
 
+    def rx_blocks(v):
+        lit_, trail = v
+        return [block("validate", [[tid("regex"), EQ, tstr(REGEX_LITS[3]) if lit_ else tpath("RE3")], [tid("len_char_max"), EQ, li(6)]], trailing=trail), D(["Debug"])], False
+    family("String", rx_blocks, [(True, False), (False, False), (True, True), (False, True)])
+
     # flags never change what the rules mean: const_fn / new_unchecked in any position
     def flag_family(inner, base_blocks):
         variants = [([], []), ([[tid("const_fn")]], []), ([], [[tid("const_fn")]]), ([[tid("new_unchecked")]], []), ([[tid("const_fn")], [tid("new_unchecked")]], []),
